@@ -73,37 +73,72 @@ def norm_count(count, cfg=(10, 1000, 10, 0, 0)):
 
 # ------------------------------------------------------------------ reference glob (cross-check of Spec)
 def ref_glob(p, s):
-    """Redis `stringmatchlen` (case-sensitive) over bytes, for well-formed patterns only."""
-    if not p:
-        return not s
-    c = p[0]
-    if c == 0x2A:  # *
-        return any(ref_glob(p[1:], s[i:]) for i in range(len(s) + 1))
+    """Port of Redis `stringmatchlen` (util.c, case-sensitive) over bytes, every pattern: an independent
+    cross-check of Lean's Spec.matchBytes.  `pi` / `si` play the pattern / string pointers."""
     if not s:
-        return False
-    if c == 0x3F:
-        return ref_glob(p[1:], s[1:])
-    if c == 0x5B:
-        i = 1
-        neg = i < len(p) and p[i] == 0x5E
-        if neg:
-            i += 1
-        match = False
-        while i < len(p) and p[i] != 0x5D:
-            if i + 2 < len(p) and p[i + 1] == 0x2D:
-                if p[i] <= s[0] <= p[i + 2]:
-                    match = True
-                i += 3
-            else:
-                if p[i] == s[0]:
-                    match = True
-                i += 1
-        if match == neg:
+        # Redis's function returns 0 for the empty string against `*` (its callers shortcut that pattern);
+        # glob semantics, and the Spec, say that a run of `*` matches the empty string
+        return all(c == 0x2A for c in p)
+    pi, si = 0, 0
+    plen, slen = len(p), len(s)
+    while plen - pi > 0 and slen - si > 0:
+        c = p[pi]
+        if c == 0x2A:                                   # '*'
+            while plen - pi > 1 and p[pi + 1] == 0x2A:
+                pi += 1
+            if plen - pi == 1:
+                return True
+            while slen - si > 0:
+                if ref_glob(p[pi + 1:], s[si:]):
+                    return True
+                si += 1
             return False
-        return ref_glob(p[i + 1:], s[1:])
-    if c == 0x5C and len(p) >= 2:
-        return p[1] == s[0] and ref_glob(p[2:], s[1:])
-    return c == s[0] and ref_glob(p[1:], s[1:])
+        elif c == 0x3F:                                 # '?'
+            si += 1
+        elif c == 0x5B:                                 # '['
+            pi += 1
+            neg = plen - pi > 0 and p[pi] == 0x5E
+            if neg:
+                pi += 1
+            match = False
+            while True:
+                if plen - pi >= 2 and p[pi] == 0x5C:
+                    pi += 1
+                    if p[pi] == s[si]:
+                        match = True
+                elif plen - pi == 0:
+                    pi -= 1
+                    break
+                elif p[pi] == 0x5D:
+                    break
+                elif plen - pi >= 3 and p[pi + 1] == 0x2D:
+                    start, end = p[pi], p[pi + 2]
+                    if start > end:
+                        start, end = end, start
+                    pi += 2
+                    if start <= s[si] <= end:
+                        match = True
+                else:
+                    if p[pi] == s[si]:
+                        match = True
+                pi += 1
+            if neg:
+                match = not match
+            if not match:
+                return False
+            si += 1
+        else:
+            if c == 0x5C and plen - pi >= 2:            # '\\'
+                pi += 1
+            if p[pi] != s[si]:
+                return False
+            si += 1
+        pi += 1
+        if slen - si == 0:
+            while plen - pi > 0 and p[pi] == 0x2A:
+                pi += 1
+            break
+    return plen - pi == 0 and slen - si == 0
 
 
 # ------------------------------------------------------------------ generators
@@ -546,12 +581,11 @@ class C19:
         self.glob_cache[key] = res
         if record:
             cls = "agree" if specv is None or specv == implv else ("non-ascii" if any(c >= 0x80 for c in pat + name) else "ascii")
-            self.rep.count("glob." + ("outside-fragment" if specv is None else cls))
+            self.rep.count("glob." + ("no-spec-verdict" if specv is None else cls))
         return res
 
     def wants(self, pat, name):
-        """Does the MATCH filter prescribe `name`?  Spec over bytes where it is defined; outside the agreed
-        fragment the pattern has no prescribed meaning and the code model's verdict is used."""
+        """Does the MATCH filter prescribe `name`?  Spec.matchBytes (Redis's glob over bytes; every pattern has a meaning)."""
         if pat is None:
             return True
         implv, codev, specv = self.glob(pat, name)
@@ -838,6 +872,21 @@ class C19:
         for tyf in (None, hx(b"zset")):
             self.execute(dict(base, count=2, type=tyf, initial=[[a, "zset+ttl"], [b, "zset+expired"], [c, "zset"], [hx(b"d"), "string+ttl"],
                                                                [hx(b"e"), "hash+expired"]], steps=[[["add", hx(b"f"), "zset+ttl"]]]), "corpus")
+        # character-class edge patterns (Redis's stringmatchlen): reversed range, escaped ] and - in a class, unterminated class,
+        # [^ [ [] [a-] []-a] ... as MATCH of SCAN / HSCAN / SSCAN / ZSCAN (engine call and handler), and as single-key verdicts
+        edge_names = [b"a", b"b", b"c", b"d", b"z", b"-", b"]", b"[", b"^", b"\\", b"_", b"`", b"0", b"-a]", b"a]", b"ab", b"b]", b"", b"x", b"[a", b"a-c"]
+        edge_pats = [b"[c-a]", b"[z-a]", b"[\\]]", b"[a\\-c]", b"[\\-]", b"[\\\\]", b"[a\\]b]", b"[ab", b"[a-c", b"[^ab", b"[a\\", b"[a-", b"[^", b"[", b"[]", b"[^]",
+                     b"[a-]", b"[]-a]", b"[]a]", b"[a-]]", b"[--a]", b"[a-c-e]", b"[^^]", b"[^\\^]", b"[[]", b"[]]", b"*[c-a]", b"[c-a]*", b"[c-a][\\]]",
+                     b"?[", b"*[^", b"[a-\\]", b"[\\a-c]", b"[a-c\\", b"x[", b"[a]]", b"[*]", b"[?]", b"[a-a]", b"[b-a-]"]
+        for p in edge_pats:
+            for t in edge_names:
+                self.glob_case(p, t, "class-edge", "corpus")
+        kinds_aux = (("keys", "string"), ("h", hx(b"v")), ("s", "-"), ("z", str(f64_bits(float("inf")))))
+        for i, p in enumerate(edge_pats):
+            for j, (kind, aux) in enumerate(kinds_aux):
+                self.execute({"kind": kind, "count": (1, 3, 10, 100)[(i + j) % 4], "pattern": hx(p), "type": None, "novalues": False,
+                              "via_cmd": (i + j) % 3 == 0, "initial": [[hx(t), aux] for t in edge_names], "steps": []}, "corpus")
+                self.rep.count("iter.class-edge-pattern." + kind)
         # MATCH on lossily decoded text: the literal pattern ff selects the key fe
         self.execute(dict(base, count=10, pattern="ff", initial=[["fe", "string"], ["ff", "string"]], steps=[]), "corpus")
         for p, t in [(b"\xff", b"\xfe"), (b"?", "é".encode()), (b"[", b"["), (b"[abc", b"a"), (b"[\\]]", b"]"), (b"[z-a]", b"b"), (b"[a-]", b"-"),
@@ -930,7 +979,7 @@ class C19:
             self.oracle_failures.append((shape, "SCAN MATCH over the single key: implementation %s, glob semantics over bytes %s" % (implv, specv), desc,
                                          {"op": "glob %s %s" % (hx(p), hx(t)), "family": family, "name_class": name_class}))
         elif specv is None:
-            key = "outside-fragment:" + ("match" if implv else "nomatch")
+            key = "no-spec-verdict:" + ("match" if implv else "nomatch")
             self.deviations.setdefault(key, {"pattern": hx(p), "text": hx(t), "impl": implv})
 
     def globs(self, r, n):
@@ -1061,8 +1110,8 @@ def main(tier, seed):
         "keys carry no TTL during an iteration (lazy expiry inside scan is C02's subject); the sweeper thread is idle",
         "cursor and COUNT are < 2^64 (u64/usize parse); usize is 64 bits",
         "the order of a fast-path HSCAN/SSCAN reply (hash-table order) is not compared; the model returns it sorted",
-        "MATCH semantics: Spec.matchBytes (tokenised glob over bytes, Redis dialect) on well-formed patterns; malformed patterns (unclosed [, \\ inside a class, "
-        "range ending at ], reversed range) have no prescribed meaning and are compared with the code model only",
+        "MATCH semantics: Spec.matchBytes = Redis's stringmatchlen over bytes for every pattern (total tokenisation: escapes inside classes, ordered range "
+        "bounds, x-y whenever two more characters follow, unterminated classes run to the end), with a run of * matching the empty string",
         "option names are ASCII (Unicode to_uppercase of non-ASCII option names is not modelled)",
     ]
     ok, log, errs = proof_phase(rep, families=["scan"])
@@ -1108,7 +1157,7 @@ def main(tier, seed):
     rep.extra["cursor_scheme"] = "slot (scan_slot of the next element)" if c.slot else "rank in the list sorted by name"
     rep.extra["model_disagreements"] = len(c.disagreements)
     rep.extra["oracle_failures"] = len(c.oracle_failures)
-    rep.extra["observations_outside_agreed_glob_fragment"] = c.deviations
+    rep.extra["glob_pairs_without_spec_verdict"] = c.deviations
     return rep.finish()
 
 
